@@ -40,6 +40,15 @@ func c19Scenarios(lim map[string]uint64) []c19Arg {
 		sc = append(sc, c19Arg{Name: fmt.Sprintf("name-RENAME-%d", l), Setup: []fsx.Op{{K: "CREATE", H: "root", N: "src"}},
 			Ops: []fsx.Op{{K: "RENAME", H: "root", N: "src", H2: "root", N2: n}, {K: "LOOKUP", H: "root", N: n, As: "_"}, {K: "LOOKUP", H: "root", N: "src", As: "_"}}})
 	}
+	// the limit counts bytes: names made of two-byte characters
+	for _, l := range []uint64{nm - 2, nm, nm + 1, nm + 2, 2 * nm} {
+		n := utf8Name(int(l))
+		for _, k := range []string{"CREATE", "MKDIR", "SYMLINK"} {
+			sc = append(sc, c19Arg{Name: fmt.Sprintf("utf8-name-%s-%d", k, l), Ops: []fsx.Op{{K: k, H: "root", N: n, Target: "t"}, {K: "LOOKUP", H: "root", N: n, As: "_"}, {K: "RESTART"}, {K: "LOOKUP", H: "root", N: n, As: "_"}, {K: "READDIR", H: "root", Cnt: 1 << 20}}})
+		}
+		sc = append(sc, c19Arg{Name: fmt.Sprintf("utf8-name-RENAME-%d", l), Setup: []fsx.Op{{K: "CREATE", H: "root", N: "src"}},
+			Ops: []fsx.Op{{K: "RENAME", H: "root", N: "src", H2: "root", N2: n}, {K: "LOOKUP", H: "root", N: n, As: "_"}, {K: "RESTART"}, {K: "READDIR", H: "root", Cnt: 1 << 20}}})
+	}
 	// many names at the limit in one directory (several directory blocks; the name cache is rebuilt after the restart)
 	for _, l := range []uint64{nm - 1, nm} {
 		last := fmt.Sprintf("m%03d", 39)
